@@ -11,6 +11,7 @@ def run(rep, fb, tier):
     builder.rule_builder_table(rep, fb)
     builder.rule_arraybuilder_update(rep, fb)
     builder.rule_growable(rep, fb)
+    builder.rule_builder_discipline(rep, fb)
     from ..rules import methodrules
     methodrules.rule_indexed_builder(rep, fb)
     forward.rule_same_name(rep, fb, select=lambda f: (f["cls"] or "").endswith("Builder") or f["cls"] == "GrowableBuffer", floor=100, name="FORWARD.same-name:builders")
